@@ -162,6 +162,9 @@ Section Step.
     let res_ok := match ds_res d, o with
                   | RUnobserved, _ => true
                   | _, Rej EForeign => true
+                  (* setupDKG failing after the state was saved is observed as key.ErrInvalidKeyScheme
+                     (a participant key does not parse) or as a sentinel-less error (no participants) *)
+                  | RErr EInvalidKeyScheme, Rej EExecSetup => true
                   | r, _ => rclass_eqb (expected_class (ds_ev d) o) r
                   end in
     (res_ok && msg_ok s
